@@ -313,7 +313,7 @@ func checkC09(c *Ctx, w *World) {
 	// ---- premise checked by a sibling property, re-evaluated here: "every slot becomes READY ⇒ the waiting BIND call is
 	// handed its slot" is stated over the recorded state of the slot's connection — the record must follow the reports and
 	// survive the refresh swap (C04.pair), or a READY channel keeps its round-robin callers waiting
-	importPremises(c, w, "C04", checkC04, []string{"C04.pair"}, "C09.states")
+	importPremises(c, w, "C04", checkC04, []string{"C04.pair", "C04.refresh-complete"}, "C09.states")
 	// "dispatch ⇔ the method's command is BIND" is stated over the method table: every configured method must be in it
 	importPremises(c, w, "C17", checkC17, []string{"C17.methods"}, "C09.config")
 
